@@ -87,7 +87,7 @@ thread_local! {
     static ITERS: std::cell::Cell<usize> = std::cell::Cell::new(0);
 }
 
-pub fn run_prog(p: &'static prog::Prog, checkpoint: Option<&str>, cap: usize) -> Vec<String> {
+pub fn run_prog(p: &'static prog::Prog, checkpoint: Option<&str>, cap: usize, stop_after: usize) -> Vec<String> {
     OUT.with(|o| o.borrow_mut().clear());
     ITERS.with(|c| c.set(0));
     loom::verif::set_sink(Some(Box::new(|l: &str| out(l.to_string()))));
@@ -112,6 +112,18 @@ pub fn run_prog(p: &'static prog::Prog, checkpoint: Option<&str>, cap: usize) ->
             });
             if n > cap {
                 panic!("verif-cap");
+            }
+            if n > stop_after {
+                // simulate the process being stopped: print what was observed and exit
+                let lines = OUT.with(|o| std::mem::take(&mut *o.borrow_mut()));
+                let stdout = std::io::stdout();
+                let mut o = stdout.lock();
+                for l in lines {
+                    writeln!(o, "{}", l).unwrap();
+                }
+                writeln!(o, "STOPPED after={}", stop_after).unwrap();
+                o.flush().unwrap();
+                std::process::exit(77);
             }
             interp::run_main(p)
         });
@@ -142,11 +154,21 @@ fn main() {
     let mut skip = 0usize;
     let mut checkpoint: Option<String> = None;
     let mut cap = usize::MAX;
+    let mut stop_after = usize::MAX;
+    let mut only: Option<usize> = None;
     let mut i = 3;
     while i < args.len() {
         match args[i].as_str() {
             "--skip" => {
                 skip = args[i + 1].parse().unwrap();
+                i += 2;
+            }
+            "--stop-after" => {
+                stop_after = args[i + 1].parse().unwrap();
+                i += 2;
+            }
+            "--only" => {
+                only = Some(args[i + 1].parse().unwrap());
                 i += 2;
             }
             "--cap" => {
@@ -173,6 +195,11 @@ fn main() {
                 if line.is_empty() || line.starts_with('#') || n < skip {
                     continue;
                 }
+                if let Some(o) = only {
+                    if n != o {
+                        continue;
+                    }
+                }
                 let p: &'static prog::Prog = match prog::parse_prog(line) {
                     Ok(p) => Box::leak(Box::new(p)),
                     Err(e) => {
@@ -185,13 +212,52 @@ fn main() {
                     writeln!(o, "PROG {} {}", n, p.id).unwrap();
                     o.flush().unwrap();
                 }
-                let lines = run_prog(p, checkpoint.as_deref(), cap);
+                let lines = run_prog(p, checkpoint.as_deref(), cap, stop_after);
                 let mut o = stdout.lock();
                 for l in lines {
                     writeln!(o, "{}", l).unwrap();
                 }
                 writeln!(o, "DONE {}", n).unwrap();
                 o.flush().unwrap();
+            }
+        }
+        "par" => {
+            // C16: several OS threads run models concurrently in one process
+            let text = std::fs::read_to_string(file).expect("read programs file");
+            let progs: Vec<(usize, &'static prog::Prog)> = text
+                .lines()
+                .enumerate()
+                .filter(|(_, l)| !l.trim().is_empty() && !l.starts_with('#'))
+                .map(|(n, l)| {
+                    let p: &'static prog::Prog = Box::leak(Box::new(prog::parse_prog(l.trim()).expect("parse")));
+                    (n, p)
+                })
+                .collect();
+            let nthreads = 4;
+            let mut handles = Vec::new();
+            for t in 0..nthreads {
+                let mine: Vec<(usize, &'static prog::Prog)> =
+                    progs.iter().filter(|(n, _)| n % nthreads == t).cloned().collect();
+                handles.push(std::thread::spawn(move || {
+                    let mut out = Vec::new();
+                    for (n, p) in mine {
+                        let lines = run_prog(p, None, cap, usize::MAX);
+                        out.push((n, p.id.clone(), lines));
+                    }
+                    out
+                }));
+            }
+            let mut all = Vec::new();
+            for h in handles {
+                all.extend(h.join().expect("worker thread panicked"));
+            }
+            all.sort_by_key(|x| x.0);
+            for (n, id, lines) in all {
+                println!("PROG {} {}", n, id);
+                for l in lines {
+                    println!("{}", l);
+                }
+                println!("DONE {}", n);
             }
         }
         "num" => {
